@@ -18,7 +18,7 @@
    the scenarios of one calculator.                                              *)
 EXTENDS Options, TLC, Json, IOUtils
 
-CONSTANTS NSample, NVar, BothFill, Seed, PropLimit, Emit
+CONSTANTS NSample, NVar, BothFill, Seed, PropLimit, Thin, BigMult, Emit
 VARIABLES c, sc
 
 All == ndJsonDeserialize(IOEnv.C11_DESCS)
@@ -83,8 +83,12 @@ ASSUME \A i \in CalcIdx : \A r \in 1..Len(DeclOf[i].t) : DeclOf[i].k[r] = <<>> =
 \* free: unchecked node that gets free keys (0 none); mult: set of [r, m] list-tag multiplicities;
 \* fill: supply the REQUIRED options that become active
 \* anc: a node that is written in any case (the list section of a "list" scenario)
-Sc(kind, picks, und, free, mult, fill, anc) ==
-  [kind |-> kind, picks |-> picks, und |-> und, free |-> free, mult |-> mult, fill |-> fill, anc |-> anc]
+\* ua: attributes the user writes on every node of his tree: "none", "note" (a harmless one), "unchecked"
+\*     (plus the harmless one) - attributes of user nodes are no options and must not change the resolution;
+\*     in particular a user cannot switch the name check off, only the description can
+ScA(kind, picks, und, free, mult, fill, anc, ua) ==
+  [kind |-> kind, picks |-> picks, und |-> und, free |-> free, mult |-> mult, fill |-> fill, anc |-> anc, ua |-> ua]
+Sc(kind, picks, und, free, mult, fill, anc) == ScA(kind, picks, und, free, mult, fill, anc, "none")
 Fills == IF BothFill THEN {TRUE, FALSE} ELSE {TRUE}
 
 H(x) == (x * 75 + 74) % 65537
@@ -118,6 +122,11 @@ Scenarios(i) ==
   \cup {Sc("free", {}, 0, r, {}, TRUE, 0) : r \in Unchecked[i]}
   \cup UNION {{Sc("list", {}, 0, 0, mv, f, s) : mv \in MultVectors(i, s), f \in {TRUE, FALSE}} : s \in ListSecs[i]}
   \cup {SampleSc(i, k) : k \in 1..NSample}
+  \* ---- extension round: attributes on user nodes, empty values, long lists ----
+  \cup {ScA("uattr", {}, NodeSeq[i][x], 0, {}, TRUE, 0, "unchecked") : x \in {y \in 1..Len(NodeSeq[i]) : y % Thin = 1 % Thin}}
+  \cup {ScA("battr", {[r |-> ls[x], vi |-> 1]}, 0, 0, {}, TRUE, 0, "note") : x \in {y \in 1..Len(ls) : y % Thin = 2 % Thin}}
+  \cup {Sc("emptyval", {[r |-> ls[x], vi |-> -1]}, 0, 0, {}, TRUE, 0) : x \in {y \in 1..Len(ls) : y % Thin = 0}}
+  \cup {Sc("biglist", {}, 0, 0, {[r |-> D.k[s][1], m |-> BigMult]}, TRUE, s) : s \in ListSecs[i]}
 
 -----------------------------------------------------------------------------
 \* ---- user tree of a scenario ----------------------------------------------------------
@@ -128,7 +137,8 @@ UserTree(i, s) ==
   LET D == DeclOf[i]
       Picked(r) == \E q \in s.picks : q.r = r
       ViOf(r) == (CHOOSE q \in s.picks : q.r = r).vi
-      Val(r, vi, occ) == IF vi = 0 THEN Invalid(D.t[r].a)
+      Val(r, vi, occ) == IF vi = -1 THEN ""                  \* the empty value <x></x>
+                         ELSE IF vi = 0 THEN Invalid(D.t[r].a)
                          ELSE LET vs == VarTab[i][r] IN vs[1 + ((vi + occ - 2) % Len(vs))]
       Below(r) == \/ \E q \in s.picks : r < q.r /\ q.r <= D.e[r]
                   \/ (s.und > r /\ s.und <= D.e[r]) \/ (s.free > r /\ s.free <= D.e[r])
@@ -153,6 +163,10 @@ UserTree(i, s) ==
   IN Gen(1, TRUE, 1, TRUE)
 
 -----------------------------------------------------------------------------
+UserOutA(U, mode) ==
+  IF mode = "none" THEN UserOut(U)
+  ELSE [j \in 1..Len(U) |-> <<U[j].d, U[j].n, U[j].v,
+                              IF mode = "unchecked" THEN [unchecked |-> "", note |-> "n"] ELSE [note |-> "n"]>>]
 NoSc == Sc("init", {}, 0, 0, {}, FALSE, 0)
 Init == c \in CalcIdx /\ sc = NoSc
 Next == sc = NoSc /\ sc' \in Scenarios(c) /\ UNCHANGED c
@@ -178,8 +192,12 @@ Check ==
      /\ Assert(sc.kind = "single" /\ sc.fill => ~\E x \in R.errs : x.e \in {"undeclared", "choice"} /\ x.n = D.t[(CHOOSE q \in sc.picks : TRUE).r].n,
                "a valid single leaf is accepted")
      /\ Assert(sc.kind = "list" => \E j \in 1..Len(UT) : UT[j].n = D.t[sc.anc].n, "the list section is written")
+     /\ Assert(sc.kind = "uattr" => (\E x \in R.errs : x.e = "undeclared") \/ D.t[sc.und].a.un, "user attributes do not switch the name check off")
+     /\ Assert(sc.kind = "biglist" => Cardinality({j \in 1..Len(R.nodes) : R.nodes[j].n = D.t[D.k[sc.anc][1]].n /\ R.nodes[j].d = D.t[sc.anc].d + 1}) = BigMult,
+               "one instance per occurrence")
+     /\ Assert(sc.kind = "emptyval" => \E j \in 1..Len(UT) : IsLeaf(UT, j) /\ UT[j].v = "" /\ UT[j].d >= 2, "an empty value is written")
      /\ (Emit => PrintT(ToJson([calc |-> All[c].file, kind |-> sc.kind, fill |-> sc.fill,
-                                user |-> UserOut(UT), exp |-> ResOut(R)])))
+                                user |-> UserOutA(UT, sc.ua), exp |-> ResOut(R)])))
 
 \* per calculator: what CalculatorOptions must show (printed once, in the first step)
 CalcVector == (Emit /\ ~Live) =>
